@@ -385,7 +385,7 @@ CFG = {
     ],
     "assumptions": [
         "float payloads of the model are well-formed SpecFloat values (wf); validity of SFadd/SFmul/SFdiv/SFsqrt/binary_normalize results is the explicit premise prims_valid of wf_closed_given_prims, not proved here",
-        "x**y is compared exactly where the integer power is representable, within 128 ulps otherwise (Number::exponentiate is implementation-approximated); parseInt values >= 2^63 within 64 ulps",
+        "x**y is compared exactly where the integer power is representable, within 128 ulps otherwise (Number::exponentiate is implementation-approximated)",
         "the implementation is tied to the model only on the generated cases (correspondence), not by proof",
         "decimal string->number is compared only where one correctly rounded division suffices (<= 2^53 mantissa, 10^k, k <= 22)",
     ],
